@@ -307,6 +307,10 @@ def ev_git(c) -> R:
         # an editor's backup copy of a licence text, ignored by Git: it is no second text for MIT, and no file of the project at all
         rec["LICENSES/MIT.txt~"] = "older licence text\n"
         rec["d/y.py~"] = "backup\n"
+    if "build/" in rules:
+        # a whole ignored directory below LICENSES/ (Git lists only the directory, not the files in it)
+        rec["LICENSES/build/MIT.txt"] = "a copy made by some build step\n"
+        rec["LICENSES/build/LicenseRef-generated.txt"] = "generated\n"
     materialise(root, rec)
     gitrepo.git(root, "init", "-q")
     tracked = [p for p, s in GIT_FILES.items() if s == "t"] + ["LICENSES/MIT.txt"]
